@@ -16,7 +16,8 @@ ASSUMPTIONS = [
 
 CONSTRUCTS = ["{% tag a=\"1 2\" %}", "{{ var | f }}", "{# a comment #}", "<!-- html comment -->", "`code span here`",
               "[link text](http://x.y/z)", "<span class=\"a b\">", "{% t %}{% /t %}", "<!-- a --><!-- /a -->",
-              "![alt text](img.png \"T\")", "`` `a b` ``", "`` x = `date +%s` ``"]
+              "![alt text](img.png \"T\")", "`` `a b` ``", "`` x = `date +%s` ``", "{% p fmt=\"%Y-%m-%d %H:%M\" %}",
+              "{{ loop.index % 2 }}", "{# 50 # of 100 #}", "<!-- a - b -> c d -->"]
 WORDS = ["aa", "bbb", "cccc", "d", "eeeeee"]
 
 
@@ -47,13 +48,28 @@ def bounded(tier, seed):
                         break
                 if flat != re.sub(r"\s+", " ", text).strip() and "\\" not in out:
                     viol.append({"clause": "spacing_kept", "input": {"text": text, "options": {"width": w, "semantic": sem}}, "got": out})
+    # the single-tag patterns: a tag runs from its opener to the FIRST closer, whatever characters lie between
+    from flowmark.linewrapping import atomic_patterns as AP
+    for pat in (AP.SINGLE_JINJA_TAG, AP.SINGLE_JINJA_COMMENT, AP.SINGLE_JINJA_VAR, AP.SINGLE_HTML_COMMENT):
+        rx = re.compile(pat.pattern, re.DOTALL)
+        alphabet = ["a", " ", "%", "#", "{", "}", "-", ">", "<", "!", "\n", "\"", pat.close_delim]
+        for n in range(0, 4):
+            for mid in itertools.product(alphabet, repeat=n):
+                s0 = pat.open_delim + "".join(mid) + pat.close_delim + " tail " + pat.close_delim
+                evals += 1
+                m = rx.match(s0)
+                want_end = s0.find(pat.close_delim, len(pat.open_delim)) + len(pat.close_delim)
+                if m is None or m.end() != want_end:
+                    viol.append({"clause": "tag_pattern_first_close", "input": {"text": s0, "pattern": pat.name},
+                                 "got": None if m is None else m.group(0), "want": s0[:want_end]})
     # tag lines stay alone on their own unindented line; enclosed lists/tables stay lists/tables with blank lines
     # (an earlier fenced code block, with an indented closing fence, must not disturb what follows it)
     PREFIXES = ("", "- item\n\n  ```\n  code\n  ```\n\n", " ~~~\ncode {% x %}\n ~~~\n\n", "```\n{% f %}\n- no list\n```\n\npara\n\n")
     for t_open, t_close in (("{% f %}", "{% /f %}"), ("<!-- f -->", "<!-- /f -->"), ("{# f #}", "{# /f #}"), ("{% if x %}", "{% endif %}"),
                             ("<!-- f -->", "<!-- end -->")):
         for inner, prefix, w, sem in itertools.product(
-                ("some prose that is long enough to wrap at narrow widths", "- i1\n- i2", "| a | b |\n|---|---|\n| 1 | 2 |", "1. x\n2. y"),
+                ("some prose that is long enough to wrap at narrow widths", "- i1\n- i2", "| a | b |\n|---|---|\n| 1 | 2 |", "1. x\n2. y",
+                 "| a | b\n|---|---\n| 1 | 2", "| a | b |\n|---|---|\n| 1 | 2"),
                 PREFIXES, (88, 20, 5), (False, True)):
                     text = "%s%s\n%s\n%s\n" % (prefix, t_open, inner, t_close)
                     out = P.fmt(text, width=w, semantic=sem)
@@ -71,9 +87,10 @@ def bounded(tier, seed):
                             viol.append({"clause": "block_in_tags_separated", "input": {"text": text, "options": {"width": w, "semantic": sem}}, "got": out})
     return {"evaluations": evals, "distinct_nontrivial": len(distinct), "violations": viol,
             "samples": [{"text": " ".join([WORDS[0], CONSTRUCTS[0], WORDS[2], CONSTRUCTS[4]])}],
-            "rule": "seeded top-level paragraphs of 2-7 tokens mixing 5 words with 13 atomic constructs (incl. multi-backtick code spans holding backticks) x widths (quick {1,3,5,8,12,20}, "
+            "rule": "each of the 4 single-tag patterns on opener + every body of <= 3 symbols over a 13-symbol alphabet + closer: the match ends at "
+                    "the first closer; seeded top-level paragraphs of 2-7 tokens mixing 5 words with 17 atomic constructs (tags whose body holds their own delimiter characters) (incl. multi-backtick code spans holding backticks) x widths (quick {1,3,5,8,12,20}, "
                     "thorough 1..20) x both modes: every construct lies within one output line and the whitespace-collapsed text is "
-                    "unchanged; 5 tag pairs x {prose, list, table, ordered list} x 4 preceding contexts (none, fenced code in a list item / with an "
+                    "unchanged; 5 tag pairs x {prose, list, table, ordered list, tables without trailing pipes} x 4 preceding contexts (none, fenced code in a list item / with an "
                     "indented closing fence, code holding tag lines) x widths {88,20,5} x both modes: the tag lines stay alone "
                     "and block content is separated by blank lines; distinct = distinct outputs",
             "exhaustive": False, "bound": "%d paragraphs" % n}
